@@ -141,6 +141,40 @@ theorem C03_ack_stops (s : State) (remote : Remote) (w : Wire) :
     · exact AllEx_of_exchanges h1 (runMonitor_tables _ _).1
     · exact h1
 
+/-- **C03 (ACK or Reset stops it — through `dispatch_message`).** The same for the whole of `recv`:
+an ACK or Reset whose code fits its type (empty, or a response piggy-backed on an ACK — RFC 7252
+table 1; `fitsReply`) is never taken for a duplicate, closes the exchange with its message ID, and
+what the type/code table does with it afterwards (nothing, or handing the piggy-backed response to
+the token manager) opens or re-opens no exchange.  An ACK/RST whose code does not fit is ignored
+altogether (`C10_misfits_ignored`): it does not stop the retransmission. -/
+theorem C03_ack_stops_recv (s : State) (remote : Remote) (mcLocal : Bool) (w : Wire)
+    (hfit : fitsReply w = true) :
+    ∀ y ∈ (recv s remote mcLocal w).1.exchanges, AckPost s remote w y := by
+  have hnd : dedupable w = false := by
+    unfold fitsReply at hfit
+    unfold dedupable
+    cases hm : w.mtype <;> simp [hm] at hfit ⊢
+  have hdup : isDup s remote w = false := by simp [isDup, hnd]
+  have hnc : (w.mtype == MType.con) = false := by
+    unfold fitsReply at hfit
+    cases hm : w.mtype <;> simp [hm] at hfit ⊢
+  have hnn : (w.mtype == MType.non) = false := by
+    unfold fitsReply at hfit
+    cases hm : w.mtype <;> simp [hm] at hfit ⊢
+  have hex : (recv s remote mcLocal w).1.exchanges = (removeExchange s remote w).1.exchanges := by
+    simp only [recv, hdup, Bool.false_eq_true, ↓reduceIte, hnd, hfit]
+    unfold recvCode
+    simp only [hnc, hnn, Bool.and_false, Bool.false_eq_true, ↓reduceIte, Bool.or_false, Bool.false_or,
+      Bool.or_self]
+    split
+    · rfl
+    · split
+      · split <;> exact (processResponse_tables _ remote w).1
+      · rfl
+  intro y hy
+  rw [hex] at hy
+  exact C03_ack_stops s remote w y hy
+
 /-- **C03 (Reset fails the request).** If the acknowledged exchange was opened by request `r`
 (still outstanding), a Reset for it puts the message error on that request's pipe. -/
 theorem C03_rst_fails_request (s : State) (remote : Remote) (w : Wire) (x : Exchange) (r : Nat)
@@ -158,14 +192,17 @@ theorem C03_foreign_ack_inert (s : State) (remote : Remote) (mcLocal : Bool) (w 
     (hcode : w.code = 0) (ht : w.mtype = .ack ∨ w.mtype = .rst)
     (hno : findExchange s remote w.mid = none) :
     recv s remote mcLocal w = (s, []) := by
-  have h1 : isDup s remote w = false := by simp [isDup, isRequest, hcode]
-  have h2 : isRequest w.code = false := by simp [isRequest, hcode]
-  have h3 : (w.mtype == MType.ack || w.mtype == MType.rst) = true := by
-    rcases ht with h | h <;> simp [h]
+  have h1 : isDup s remote w = false := by simp [isDup, dedupable, isRequest, hcode]
+  have h2 : dedupable w = false := by simp [dedupable, isRequest, hcode]
+  have h3 : fitsReply w = true := by
+    rcases ht with h | h <;> simp [fitsReply, h, hcode]
   have h4 : (w.mtype == MType.con) = false := by
     rcases ht with h | h <;> simp [h]
   have h5 : isRequest 0 = false := by decide
-  simp [recv, h1, h2, h3, removeExchange, hno, recvCode, hcode, h4, h5]
+  have h6 : (w.mtype == MType.ack || w.mtype == MType.rst) = true := by
+    rcases ht with h | h <;> simp [h]
+  have h6' : w.mtype = MType.ack ∨ w.mtype = MType.rst := ht
+  simp [recv, h1, h2, h3, removeExchange, hno, recvCode, hcode, h4, h5, h6']
 
 -- non-vacuity ------------------------------------------------------------------------------------
 
